@@ -633,7 +633,9 @@ def minimize_lbfgsb(
                     np.copy(x),
                     OptimizeResult(
                         fun=f0,
-                        jac=grad,
+                        # a copy: grad is also the newest entry of G, which
+                        # update_fun_def is allowed to rewrite in place later on
+                        jac=np.copy(grad),
                         nfev=sf.nfev,
                         njev=sf.ngev,
                         nit=istate.nit + 1,
